@@ -25,7 +25,7 @@ EXPLANATION = (
     'gammatone 3 dB crossing, ERB = edge spacing, unit peak gain, unit L2 norm with scale_l2_norm). Triangular / Fbank '
     'responses are executed with symbolic vertices and a symbolic DFT bin and compared with the documented triangle.')
 BOUNDS = {'quick': 'num_filts 1-3 (Gabor 1-2, gammatone 1); sampling rates 8000, 16000, 11025; gammatone orders 1-6; triangle: DFT widths 8, 9, 64 with filters spanning <= 4 bins',
-          'thorough': 'num_filts 1-5; orders 1-8; widths 8, 9, 64, 127, 512'}
+          'thorough': 'num_filts 1-5 (Gabor 1-3, gammatone 1); orders 1-8; widths 8, 9, 64, 127, 512'}
 OUTSIDE = ['discrete-time norm vs the continuous closed form (||h||_2 = 1 is checked for the continuous formula)', 'floating point',
            'responses whose support spans half the sampling rate or more (periodic images overlap: excluded by the property)',
            'the strip nyquist < high_hz <= nyquist + 1 (left unspecified by the property)']
@@ -44,8 +44,8 @@ def configs(tier, seed):
         for nf in ((1, 2, 3) if tier == 'quick' else (1, 2, 3, 4, 5)):
             if cls == 'GaborFilterBank' and nf > (2 if tier == 'quick' else 3):
                 continue
-            if cls == 'ComplexGammatoneFilterBank' and nf > (1 if tier == 'quick' else 2):
-                continue      # nonlinear support arithmetic: keep the quick tier well inside the solver's comfort zone
+            if cls == 'ComplexGammatoneFilterBank' and nf > 1:
+                continue      # nonlinear support arithmetic: two filters are decided by nlsat only without load (unknown under load): kept out of both tiers
             cfgs.append(dict(kind='layout', name='layout %s nf%d' % (cls, nf), cls=cls, nf=nf))
         # ranges reaching into the unspecified strip (Nyquist, Nyquist + 1]: the constructor may reject them, but whatever it
         # accepts must be a sane bank (centres increasing, inside their supports, within [0, Nyquist])
